@@ -86,6 +86,7 @@ struct Stats {
     int64_t sim_ms = 0;
     uint64_t sched_hash = 0;      // hash of all decisions
     uint64_t event_hash = 0;      // hash of all events
+    uint32_t harness_nontrivial = 0;  // set by the harness through note_nontrivial()
     bool diverged = false;        // replay only: the script became infeasible / misaligned
 };
 
@@ -121,6 +122,7 @@ void ev(int kind, int a = 0, int b = 0);
 uint32_t seqno();                    // sequence number the next event will get
 int choose(int n, int dflt = 0);     // harness-level decision in [0,n); recorded as 'H'; dflt used by minimised scripts
 int64_t now_ms();                    // simulated wall clock (ms since epoch)
+void note_nontrivial();              // harness: this run exercised what its non-triviality rule asks for
 std::vector<ThreadInfo> threads();
 ThreadInfo thread_info(int tid);
 int thread_count();
